@@ -87,7 +87,14 @@ v('c19-benign-slots-order', 'benign', ['C19', 'C18'], O, ("        'options',\n 
 v('c18-shared-default-options', 'break', ['C18'], O, ('self.options = self.default_options.copy()', 'self.options = self.default_options'))
 v('c18-shared-default-value', 'break', ['C18'], O, ('self._content = deepcopy(self.default_value)', 'self._content = self.default_value'))
 v('c18-benign-dict-copy', 'benign', ['C18', 'C19'], O, ('self.options = self.default_options.copy()', 'self.options = dict(self.default_options)'))
+v('c18-read-after-handout', 'break', ['C18'], R,
+  ("            valid_sections = VALID_SECTION_STATES[section_id]\n\n            # Pass that section up to the caller for processing.\n            yield section\n",
+   "            # Pass that section up to the caller for processing.\n            yield section\n\n            valid_sections = VALID_SECTION_STATES[section['section']]\n"))
+v('c18-benign-yield-then-local', 'benign', ['C18', 'C10'], R,
+  ("            valid_sections = VALID_SECTION_STATES[section_id]\n\n            # Pass that section up to the caller for processing.\n            yield section\n",
+   "            # Pass that section up to the caller for processing.\n            yield section\n\n            valid_sections = VALID_SECTION_STATES[section_id]\n"))
 v('c18-valid-states-mutated', 'break', ['C18', 'C10'], R, ('            valid_sections = VALID_SECTION_STATES[section_id]\n', '            valid_sections = VALID_SECTION_STATES[section_id]\n            valid_sections.discard(Section.MAIN)\n'))
+v('c08-decode-handler-narrowed', 'break', ['C08'], R, ('            except UnicodeError:', '            except UnicodeDecodeError:'))
 # ---- C20
 v('c20-uncaptured-newline', 'break', ['C20'], L, ("_header_options = r'(?:( )([^\\n]*))?(\\n)'", "_header_options = r'(?:( )([^\\n]*))?\\n'"))
 v('c20-empty-rule', 'break', ['C20'], L, ("            (r'.*\\n', Text),\n        ],\n\n        'diff'", "            (r'.*\\n', Text),\n            (r'', Text),\n        ],\n\n        'diff'"))
